@@ -432,20 +432,29 @@ func init() {
 		if err != nil {
 			return err
 		}
-		var reportSites, deletionSites, sentSites []string
+		var reportSites, deletionSites, sentSites, deliverySite []string
 		deliveryConditioned := false
+		deliveryFlagGuarded := false
+		deliveryCall := ""
 		deliverySites := 0
 		for _, fd := range fds {
 			for _, s := range x.Sites(fd, x.callWanted("SendStatusReport")) {
-				reportSites = append(reportSites, s.String())
 				if fd.Name.Name == "localDelivery" {
+					// kept apart from the other sites: the repair of D16 changes the conditions this
+					// call sits under; what must not change is pinned by the three facts below
 					deliverySites++
-					if successConditioned(fd, s.chain, "Deliver") {
-						deliveryConditioned = true
-					} else {
-						deliveryConditioned = deliveryConditioned && false
+					deliverySite = append(deliverySite, s.String())
+					deliveryCall = s.what
+					deliveryConditioned = successConditioned(fd, s.chain, "Deliver")
+					for _, c := range s.chain {
+						if (c.kind == "if") && c.init == nil &&
+							oneLine(x.Src(c.cond)) == "bp.MustBundle().PrimaryBlock.BundleControlFlags.Has(bpv7.StatusRequestDelivery)" {
+							deliveryFlagGuarded = true
+						}
 					}
+					continue
 				}
+				reportSites = append(reportSites, s.String())
 			}
 			for _, s := range x.Sites(fd, x.callWanted("bundleDeletion")) {
 				deletionSites = append(deletionSites, s.String())
@@ -466,6 +475,9 @@ func init() {
 			}
 		}
 		x.StrList("reportSites", reportSites)
+		x.StrList("deliveryReportSite", deliverySite)
+		x.Str("deliveryReportCall", deliveryCall)
+		x.Bool("deliveryReportFlagGuarded", deliveryFlagGuarded)
 		x.StrList("deletionSites", deletionSites)
 		x.StrList("bundleSentSites", sentSites)
 		if deliverySites != 1 {
